@@ -193,6 +193,57 @@ def combination_stream(chk, tmp, R, n):
             chk.fail(key, case, f'build+write {st} ({err}), expected {want}')
 
 
+WRITE_TIME_ASPECTS = [
+    ('signed-int-channel', {'dtype': 'int16'}),
+    ('channel-in-no-frame', {'unassigned': True}),
+    ('channel-in-two-frames', {'second_frame': True}),
+    ('non-uniform-index', {'index_type': 'BOREHOLE-DEPTH', 'index': [1.0, 2.0, 4.0, 8.0]}),
+]
+
+
+def rewrite_across_modes_stream(chk, tmp, R, n):
+    """ONE file object whose breach is only checked at write time, written several times, inside and outside the mode in
+    any order: every write inside the mode must raise, every write outside must succeed — whatever happened before"""
+    import numpy as np
+    for i in range(n):
+        name, over = R.choice(WRITE_TIME_ASPECTS)
+        df = DLISFile(set_identifier='SET-1')
+        lf = df.add_logical_file(fh_id='HDR-1')
+        lf.add_origin('ORIGIN', creation_time='2020/01/01 00:00:00', file_set_number=1)
+        idx = np.array(over.get('index', [1.0, 2.0, 3.0, 4.0]))
+        c0 = lf.add_channel('DEPTH', data=idx, units='m')
+        c1 = lf.add_channel('C1', data=np.arange(4).astype(over.get('dtype', 'float32')))
+        if over.get('unassigned'):
+            lf.add_channel('LONELY', data=np.arange(4, dtype=np.float32))
+        lf.add_frame('FRAME', channels=[c0, c1], **({'index_type': over['index_type']} if 'index_type' in over else {}))
+        if over.get('second_frame'):
+            c2 = lf.add_channel('C2', data=np.arange(4, dtype=np.float32))
+            lf.add_frame('FRAME2', channels=[c2, c1])
+        seq = [R.choice(['in', 'out']) for _ in range(R.choice([2, 3, 4]))]
+        if 'in' not in seq:
+            seq.append('in')
+        done = []
+        for where in seq:
+            def w():
+                if where == 'in':
+                    with high_compatibility_mode():
+                        df.write(f'{tmp}/am.dlis', output_chunk_size=2**20)
+                else:
+                    df.write(f'{tmp}/am.dlis', output_chunk_size=2**20)
+            st, err = call(w)
+            done.append(f'{where}:{st}')
+            case = {'aspect': name, 'writes_of_the_same_object': list(done)}
+            if global_config.high_compat_mode:
+                chk.fail('context:flag-leaks', case, 'flag still on after the context')
+                global_config.high_compat_mode = False
+            want = 'err' if where == 'in' else 'ok'
+            if st != want:
+                chk.fail('rewrite:not-enforced:' + name if want == 'err' else 'rewrite:rejected-outside-mode:' + name, case,
+                         f'write number {len(done)} ({"inside" if where == "in" else "outside"} the mode) {st} ({err}), expected {want}')
+                break
+        chk.case('rewrite-across-modes', nontrivial_key=('ram', i), sample={'aspect': name, 'writes': done})
+
+
 def run(tier):
     chk = Check('C17', tier)
     chk.rule = ('(a) every context shape up to depth 3 from a random grammar (library calls that fail, exceptions '
@@ -281,6 +332,7 @@ def run(tier):
                         key = 'aspect:not-enforced' if want == 'err' else ('aspect:rejected-outside-mode' if not inside else 'aspect:valid-rejected-in-mode')
                         chk.fail(key + ':' + name, case, f'build+write {st} ({err}), expected {want}')
         combination_stream(chk, tmp, R, 120 if tier == 'quick' else 1200)
+        rewrite_across_modes_stream(chk, tmp, R, 60 if tier == 'quick' else 600)
         # (c2) objects created in one mode, enumerated attributes (re)assigned in the other
         def make_objects():
             df = DLISFile(set_identifier='SET-1')
